@@ -21,7 +21,7 @@ import time
 import traceback
 
 ROOT = os.path.dirname(os.path.dirname(os.path.abspath(__file__)))
-REPO = '/repo'
+REPO = os.environ.get('VERIF_REPO', '/repo').rstrip('/')      # see symx/edz.py
 
 
 def _load(prop):
@@ -198,8 +198,9 @@ def main(argv=None):
 
     seed = int(os.environ.get('VERIF_SEED', '0') or 0)
     t_start = time.monotonic()
-    mod = _load(prop)
     tier = args.tier
+    os.environ.setdefault('VERIF_XCHECK', '4' if tier == 'quick' else '16')    # read by symx.core at import
+    mod = _load(prop)
     shards = mod.shards(tier)
     budget = getattr(mod, 'BUDGET_S', {}).get(tier, 600 if tier == 'quick' else 3600)
     if args.budget:
@@ -330,6 +331,15 @@ def main(argv=None):
         'solver_queries': {'total': total.queries, 'sat': total.q_sat, 'unsat': total.q_unsat,
                            'unknown': total.q_unknown},
         'solver_seconds': round(total.solver_s, 3),
+        'solver_crosscheck': {
+            'what': "sample of the validity queries answered 'unsat' by the engine's z3 (first query of every check "
+                    "label and every 2^k-th query of each shard, at most VERIF_XCHECK=%s per shard), re-decided as one "
+                    "SMT-LIB2 batch per shard by independent solver binaries; a 'sat' answer makes the check "
+                    "inconclusive, 'unknown'/error leaves the query unconfirmed by that solver"
+                    % os.environ.get('VERIF_XCHECK'),
+            'solvers': {'cvc5': 'cvc5 binary on PATH (1.0.x)', 'z3-4.8': '/usr/bin/z3 (4.8.12)'},
+            'counts': {k[5:]: v for k, v in sorted(total.notes.items()) if k.startswith('__xc_')},
+        },
         'shards': [{'name': shards[r['idx']]['name'],
                     'paths': r.get('stats', {}).get('paths'),
                     'wall_s': round(r.get('wall', 0), 2)} for r in results],
@@ -390,7 +400,8 @@ COMMON_ASSUMPTIONS = [
     "the stated bounds only",
     "real numbers are exact rationals (IEEE rounding of float arithmetic is outside the claim); "
     "Python ints are mathematical integers",
-    "z3 is trusted for unsat verdicts; every sat verdict is confirmed by a concrete replay",
+    "z3 (5.x library) is trusted for unsat verdicts - a sample of them is re-decided by the cvc5 and z3 4.8 "
+    "binaries (coverage.solver_crosscheck); every sat verdict is confirmed by a concrete replay",
     "logging is disabled (logging.disable) and Block.__hash__ is by name (deterministic re-execution)",
 ]
 
